@@ -8,7 +8,7 @@ every restriction; the same inputs are accepted outside the context.
 """
 import re
 import copy
-from .. import gen, genmeta, rp66, model as M
+from .. import gen, genmeta, rp66, model as M, invariants as I
 from . import common as C
 
 ID = 'C17'
@@ -45,7 +45,7 @@ def build(rng, breach, px='', fid='f0'):
                    'name': 'ORIGIN-%d' % k if not (empty_where == 'origin' and k == n_or - 1) else '', 'kwargs': kw})
     rows = rng.choice([3, 5, 8])
     idx_rc, _ = gen.index_recipe(rng, rows, dtype=rng.choice(['f8', 'f4', 'u2', 'u4']),
-                                 mode='noisy' if breach == 'nonuniform_index' else rng.choice(['uniform', 'uniform_dec', 'near']))
+                                 mode=rng.choice(['noisy', 'noisy', 'edge_above', 'mono']) if breach == 'nonuniform_index' else rng.choice(['uniform', 'uniform_dec', 'near']))
     indexed = breach in ('nonuniform_index', 'bad_index_type') or rng.random() < 0.5
     c0 = spec.channel(lfi, 'DEPTH', idx_rc, units='bananas' if breach == 'bad_units' else rng.choice(['m', 'ft', {'$enum': ['Unit', 'METER']}]))
     dt = rng.choice(['i2', 'i4', 'i1']) if breach == 'signed_data' else rng.choice(['u1', 'u2', 'u4', 'f4', 'f8'])
@@ -283,6 +283,13 @@ def restrictions(dec, m, fid, fp):
                     nrows = len(lf.frames[tuple(o.name)].rows) if tuple(o.name) in lf.frames else 0
                     if (sp is None or not sp.values) and nrows > 1:     # (one row: uniformity is vacuous, no spacing exists)
                         out.append(C.V('C17.restriction_not_enforced', dict(fp, aspect='uniform_spacing'), frame=o.name[2]))
+                    xs = I.index_values(lf, o) if nrows > 1 else None
+                    if xs:
+                        # ... and the index values written are what decides, not the presence of a SPACING attribute
+                        cls, dev = I.uniformity(xs)
+                        if cls == 'nonuniform':
+                            out.append(C.V('C17.restriction_not_enforced', dict(fp, aspect='uniform_spacing', by='index_values'),
+                                           frame=o.name[2], dev=dev if dev != float('inf') else 'inf'))
         for c, n in frames_of.items():
             if n != 1:
                 out.append(C.V('C17.restriction_not_enforced', dict(fp, aspect='channel_in_one_frame', frames=min(n, 2)), channel=list(c)))
